@@ -355,7 +355,7 @@ func (t genT) args() string {
 func malformedLine(r *rng.R) string {
 	return r.Pick("", "nop", "i64.dec", "i64.dec t:1 t:2", "i64.dec 123", "i64.dec t:%zz", "i64.dec t:%4", "i64.enc 5", "x64.dec t:1", "i64.rt abc", "i64.rt 9223372036854775808",
 		"u64.rt -1", "u64.rt 18446744073709551616", "byte.rt 256", "byte.rt 1,,2", "byte.rt a", "hex.rt 10 s 5", "hex.rt 16 x 5", "hex.dec 16 s", "hex.rt 16 u -1",
-		"b64.rt 41", "b64.rt x:4", "b64.rt x:zz", "b64.dec QQ", "sql.scan nano i64", "sql.scan moon i64 1", "sql.scan nano f32 1", "sql.scan nano time 5", "sql.scan nano null 0", "sql.scan nano bool 2", "ntime.rtt 5 1000000000 unix", "ntime.rtt 5 0 mars", "sql.rtt stamp 5 0 unix", "dur.toml k:moon", "b64.scankind moon", "sql.rt nano", "sql.rt nano x", "dur.rt 1h", "i64 dec t:1")
+		"b64.rt 41", "b64.rt x:4", "b64.rt x:zz", "b64.dec QQ", "sql.scan nano i64", "sql.scan moon i64 1", "sql.scan nano f32 1", "sql.scan nano time 5", "sql.scan nano null 0", "sql.scan nano bool 2", "ntime.rtt 5 1000000000 unix", "ntime.rtt 5 0 mars", "sql.rtt stamp 5 0 unix", "dur.toml k:moon", "b64.scankind moon", "tostr f64 1", "tostr u64w -1", "tostr i64w 9223372036854775808", "tostr i64w", "sql.rt nano", "sql.rt nano x", "dur.rt 1h", "i64 dec t:1")
 }
 
 func decLine(ty string, tok []byte) string { return ty + ".dec " + tokArg(tok) }
@@ -454,7 +454,43 @@ func sizeCase(r *rng.R, n int) corr.Case {
 	return corr.Case{Tag: "sizes", Lines: lines}
 }
 
+// genToStrCase: the generic text form (tex.ToString and the map/list paths over it) of wrapper and plain integer values,
+// biased to where a detour through float64 or int would lose information: 2^53±1, Max/MinInt64, above MaxInt64, MaxUint64.
+func genToStrCase(r *rng.R) corr.Case {
+	var lines []string
+	for len(lines) < 10 {
+		switch r.Intn(3) {
+		case 0:
+			var x uint64
+			switch r.Intn(4) {
+			case 0:
+				x = []uint64{0, 1, 1<<53 - 1, 1 << 53, 1<<53 + 1, 1<<63 - 1, 1 << 63, 1<<63 + 1, 1<<64 - 2, 1<<64 - 1, 9007199254740993, 1234567890123456789, 12345678901234567891}[r.Intn(13)]
+			case 1:
+				x = 1<<53 + r.U64()%(1<<20)
+			default:
+				x = genU64(r)
+			}
+			lines = append(lines, "tostr "+r.Pick("u64w", "u64w", "u64", "uint")+" "+strconv.FormatUint(x, 10))
+		default:
+			var x int64
+			switch r.Intn(4) {
+			case 0:
+				x = r.PickI64(0, -1, 1<<53-1, 1<<53, 1<<53+1, -(1<<53 + 1), 9007199254740993, 1234567890123456789, -1234567890123456789, 1<<63-1, 1<<63-2, -1<<63, -1<<63+1)
+			case 1:
+				x = (1<<53 + int64(r.U64()%(1<<20))) * int64(r.PickInt(1, -1))
+			default:
+				x = genI64(r)
+			}
+			lines = append(lines, "tostr "+r.Pick("i64w", "i64w", "i64", "int", "dur", "tdur")+" "+strconv.FormatInt(x, 10))
+		}
+	}
+	return corr.Case{Tag: "tostring", Lines: lines}
+}
+
 func genCase(r *rng.R, tier string, i int) corr.Case {
+	if r.Chance(1, 25) {
+		return genToStrCase(r)
+	}
 	if r.Chance(1, 12) {
 		return genDictCase(r)
 	}
@@ -627,6 +663,9 @@ func fixedCases() []corr.Case {
 		out = append(out, sizeCase(rng.New(uint64(n)), n))
 	}
 	out = append(out, sizeCase(rng.New(7), 49150), sizeCase(rng.New(8), 70000))
+	out = append(out, c("tostring", "tostr i64w 9007199254740993", "tostr i64w 9223372036854775807", "tostr i64w -9223372036854775808", "tostr u64w 9007199254740993",
+		"tostr u64w 9223372036854775807", "tostr u64w 9223372036854775808", "tostr u64w 18446744073709551615", "tostr u64 18446744073709551615", "tostr uint 9223372036854775809",
+		"tostr i64 1234567890123456789", "tostr int -1234567890123456789", "tostr dur 9007199254740993", "tostr tdur -9223372036854775808", "tostr i64w 0", "tostr u64w 0"))
 	out = append(out, c("malformed", "nop", "i64.dec", "i64.dec t:%zz", "i64.rt 9223372036854775808", "hex.rt 10 s 5", "b64.rt x:4", "sql.scan moon i64 1"))
 	return out
 }
